@@ -661,10 +661,8 @@ pub fn plain_bytes() -> Vec<Sym> {
         Ok("alt") => 0xff,
         _ => 0x55,
     };
-    let two = match std::env::var("VERIF_ALPHA").as_deref() {
-        Ok("alt") => 0x03,
-        _ => 0x02,
-    };
+    // (02 is not interchangeable: as a pad count 2 and 3 behave differently)
+    let two = 0x02;
     [0x00u8, 0x01, two, 0x1a, 0x1b, other].iter().map(|&b| Sym::B(b)).collect()
 }
 pub fn full_alphabet() -> Vec<Sym> {
